@@ -170,6 +170,76 @@ func sizeSlice(v ssa.Value) map[ssa.Value]bool {
 			for _, e := range x.Edges {
 				walk(e)
 			}
+		case *ssa.Extract:
+			// the size computed by a helper of the package: an argument is part of it if the corresponding
+			// parameter is part of the size the helper returns on every successful return
+			if call, ok := x.Tuple.(*ssa.Call); ok {
+				helperArgs(call, x.Index, walk)
+			}
+		case *ssa.Call:
+			helperArgs(x, 0, walk)
+		}
+	}
+	walk(v)
+	return seen
+}
+
+func helperArgs(call *ssa.Call, idx int, walk func(ssa.Value)) {
+	h := call.Call.StaticCallee()
+	if h == nil || h.Blocks == nil || h.Pkg == nil || relPkg(h.Pkg.Pkg.Path()) != "internal/decode" {
+		return
+	}
+	for i, a := range call.Call.Args {
+		if i >= len(h.Params) || !isIntegerType(a.Type()) {
+			continue
+		}
+		inAll, any := true, false
+		for _, ret := range returnsOf(h) {
+			if idx >= len(ret.Results) {
+				inAll = false
+				continue
+			}
+			if last := ret.Results[len(ret.Results)-1]; isErrorType(last.Type()) && knownNonNil(last) {
+				continue
+			}
+			if k, isK := unspill(ret.Results[idx]).(*ssa.Const); isK && k.Value != nil && len(ret.Results) > 1 && !isNilConst(ret.Results[len(ret.Results)-1]) {
+				continue
+			}
+			any = true
+			if !sizeSliceNoHelpers(unspill(ret.Results[idx]))[h.Params[i]] {
+				inAll = false
+			}
+		}
+		if inAll && any {
+			walk(a)
+		}
+	}
+}
+
+// sizeSliceNoHelpers: like sizeSlice, without following helper calls (bounds the recursion).
+func sizeSliceNoHelpers(v ssa.Value) map[ssa.Value]bool {
+	seen := map[ssa.Value]bool{}
+	var walk func(v ssa.Value)
+	walk = func(v ssa.Value) {
+		v = unspill(v)
+		if v == nil || seen[v] {
+			return
+		}
+		seen[v] = true
+		switch x := v.(type) {
+		case *ssa.BinOp:
+			if x.Op == token.ADD || x.Op == token.SUB {
+				walk(x.X)
+				walk(x.Y)
+			}
+		case *ssa.Convert:
+			walk(x.X)
+		case *ssa.ChangeType:
+			walk(x.X)
+		case *ssa.Phi:
+			for _, e := range x.Edges {
+				walk(e)
+			}
 		}
 	}
 	walk(v)
